@@ -18,6 +18,7 @@
   at a nested level).
 -/
 import TypedpyModel.Lemmas.MappersRegion
+import TypedpyModel.Lemmas.MappersCache
 namespace Typedpy.C07
 open Typedpy.Mappers
 
@@ -97,6 +98,49 @@ theorem history_transparent_from_empty (S : StrFns) (env : String → Cls) (dec 
     runHistory S env dec [] calls =
       calls.map (fun k => aggregate S true (env k.1).own (env k.1).fields (dec k.2.1) k.2.2) :=
   history_transparent S env dec calls [] (fun _ h => by cases h)
+
+/-! ### the cache with the nested-class entries threaded explicitly -/
+
+/-- **One call, nested entries included.**  `cAggregate` mirrors `aggregate_serialization_mappers` as it
+    runs: the base mapper asks the cache for every nested class (at any depth), computes and files
+    what is missing.  If every entry of the cache is the aggregate its key names (`CacheOK`) and the
+    ids of the nested classes name those classes (`envFs`), the mapper handed out is the freshly
+    computed aggregate and the cache — with all the new nested entries — is coherent again. -/
+theorem cache_transparent_nested (S : StrFns) (env : String → Cls) (dec : String → Option MDict)
+    (hdec : dec "" = none) (cache : Cache) (h : CacheOK S env dec cache) (me ovKey : String) (camel : Bool)
+    (he : envFs env (env me).fields) :
+    (cAggregate S cache me ovKey (env me).own (env me).fields (dec ovKey) camel).1
+        = aggregate S true (env me).own (env me).fields (dec ovKey) camel
+    ∧ CacheOK S env dec
+        (cAggregate S cache me ovKey (env me).own (env me).fields (dec ovKey) camel).2 :=
+  c07_cAggregate_ok S env dec hdec cache h me ovKey camel he
+
+/-- the mappers handed out along a history of calls, nested entries threaded -/
+def runHistoryN (S : StrFns) (env : String → Cls) (dec : String → Option MDict) :
+    Cache → List CacheKey → List MDict
+  | _, [] => []
+  | cache, (me, ovKey, camel) :: rest =>
+    (cAggregate S cache me ovKey (env me).own (env me).fields (dec ovKey) camel).1 ::
+      runHistoryN S env dec
+        (cAggregate S cache me ovKey (env me).own (env me).fields (dec ovKey) camel).2 rest
+
+/-- **Any history, nested entries included**: whatever was serialized before (outer classes, nested
+    classes on their own, any flags), every call resolves exactly the mapper of its own class,
+    override and `camel_case_convert`. -/
+theorem history_transparent_nested (S : StrFns) (env : String → Cls) (dec : String → Option MDict)
+    (hdec : dec "" = none) :
+    ∀ (calls : List CacheKey) (cache : Cache), CacheOK S env dec cache →
+      (∀ k ∈ calls, envFs env (env k.1).fields) →
+      runHistoryN S env dec cache calls =
+        calls.map (fun k => aggregate S true (env k.1).own (env k.1).fields (dec k.2.1) k.2.2)
+  | [], _, _, _ => rfl
+  | (me, ovKey, camel) :: rest, cache, h, he => by
+    have ht := cache_transparent_nested S env dec hdec cache h me ovKey camel
+      (he (me, ovKey, camel) (List.mem_cons_self ..))
+    simp only [runHistoryN, List.map_cons]
+    rw [ht.1, history_transparent_nested S env dec hdec rest _ ht.2
+      (fun k hk => he k (List.mem_cons_of_mem _ hk))]
+
 
 /-! ### key-set law -/
 
@@ -693,6 +737,19 @@ theorem closed_round_trip_example :
     rtClsK idFns false true (levelOK idFns) kuAll (aggregate idFns true kuAll.own kuAll.fields none false)
         none false kuInst = true
     ∧ regionOK idFns kuAll none false = true := by
+  decide
+
+def cacheG : List Fld := [.scalar "a" false]
+def cacheMid : List Fld := [.nested "g" false .one { ser := [.dict [(.fld "a", .key "z")]], cid := "G" } cacheG]
+def cacheTopFs : List Fld := [.nested "m" false .one { ser := [.lower], cid := "Mid" } cacheMid]
+
+/-- non-vacuity: serializing `Top -> Mid -> G` from an empty cache files `G`, `Mid` and `Top` (in this
+    order); a later call on `Mid` alone is answered from the cache -/
+theorem cache_nested_example :
+    ((cAggregate upFns [] "Top" "" [] cacheTopFs none false).2.map (·.1))
+        = [("G", "", false), ("Mid", "", false), ("Top", "", false)]
+    ∧ ((cAggregate upFns (cAggregate upFns [] "Top" "" [] cacheTopFs none false).2
+          "Mid" "" [.lower] cacheMid none false).2.length) = 3 := by
   decide
 
 end Typedpy.C07
